@@ -9,6 +9,10 @@ def run(ctx: Ctx) -> None:
     t3_bspline.run_tables(ctx)
     t3_bspline.run_evaluate(ctx)
     t3_bspline.run_kernels_nd(ctx)
+    t3_bspline.run_weights_dtype(ctx)
+    t3_bspline.run_ffd_shape(ctx)
+    ctx.floor("T3.ffd-shape", 8)
+    ctx.floor("T3.dtype", 6)
     ctx.floor("T3.kernels", 19)
     ctx.floor("T3.weights", 25)
     ctx.floor("T3.value", 12)
@@ -55,6 +59,8 @@ def mutants(prog):
         ("2-D kernel allocated in stride order", "deepali.core.kernels", "cubic_bspline2d", "(4 * stride_ - 1).flip(0).tolist()", "(4 * stride_ - 1).tolist()", "T3.kernels"),
         ("3-D kernel: x and z strides swapped", "deepali.core.kernels", "cubic_bspline3d", "w_k = cubic_bspline_value((k - radius[2]) / stride[2], derivative=derivative)", "w_k = cubic_bspline_value((k - radius[2]) / stride[0], derivative=derivative)", "T3.kernels"),
         ("generic kernel front end drops the derivative (2-D)", "deepali.core.kernels", "cubic_bspline", "return cubic_bspline2d(stride_, derivative=derivative, dtype=dtype, device=device)", "return cubic_bspline2d(stride_, dtype=dtype, device=device)", "T3.kernels"),
+        ("ffd data_shape: strides in (x, y) order against a shape in tensor order", S, "BSplineTransform.data_shape", "U.cubic_bspline_control_point_grid_size(grid.shape, self.data_stride)", "U.cubic_bspline_control_point_grid_size(grid.shape, self.stride)", "T3.ffd-shape"),
+        ("weights: offsets in the default float type", B, W, "offset = torch.arange(0, 1, 1 / s, dtype=kernel.dtype, device=kernel.device)", "offset = torch.arange(s, device=kernel.device).div(s)", "T3.dtype"),
     ]
     for name, mod, fn, old, new, expect in specs:
         ov = source_sub(prog, mod, fn, old, new)
